@@ -361,7 +361,10 @@ def check_attribute_dispatch(ctx):
             return None
         if fn.cls is not None and name in fn.cls.methods and fn.cls.methods[name] is not fn:
             return fn.cls.methods[name]
-        return fn.module.functions.get(name)
+        if name in fn.module.functions:
+            return fn.module.functions[name]
+        r_ = sm.resolve_name(fn.module.name, name)          # a helper imported from another module of the package
+        return r_[1] if r_ and r_[0] == 'func' else None
 
     def loops_below(fn, stmts, depth=0):
         """For-loops with a tag dispatch in these statements, following calls of extracted helpers."""
